@@ -8,6 +8,7 @@ import (
 	"path/filepath"
 	"runtime"
 	"strings"
+	"syscall"
 	"testing"
 
 	"reservoir/config"
@@ -114,7 +115,20 @@ func scenarioSched(c *vrun.Ctx) {
 			}
 			subs.UnsubscribeAll()
 		}
-		c.Explore(vrun.ExploreOpts{Name: sc.name, K: -1, E: -1, Prop: "C19", Body: body, Check: func(x *vsched.Exec) {
+		// the unchanged code leaks one descriptor per logger rebuild (closed by finalizers, whenever those run):
+		// a replay that diverges while the worker is short of descriptors says nothing about the code
+		nearFdLimit := func() bool {
+			ents, err := os.ReadDir("/proc/self/fd")
+			var lim syscall.Rlimit
+			if err != nil || syscall.Getrlimit(syscall.RLIMIT_NOFILE, &lim) != nil {
+				return true
+			}
+			return problem != "" || uint64(len(ents)) > lim.Cur/2
+		}
+		c.Explore(vrun.ExploreOpts{Name: sc.name, K: -1, E: -1, Prop: "C19", DivergenceIsCap: nearFdLimit, Body: body, Check: func(x *vsched.Exec) {
+			if problem == "" && nearFdLimit() {
+				problem = "more than half of the worker's file descriptors are in use"
+			}
 			if problem != "" {
 				// (the unchanged code never closes a replaced file logger; when the worker runs out of
 				// descriptors that is a limit of this harness, not a verdict)
